@@ -390,4 +390,200 @@ theorem resume_single (g : Graph) (d : Nat → Nat) (hr : Term.Ranked g d) (hsym
   · next heq => exact ⟨by rw [heq]; rfl, Calm.refl 0 s⟩
   · next heq => exact ⟨by rw [heq]; rfl, Calm.refl 0 s⟩
 
+/-! ## the result wait is bounded: `wait ≤ 10` -/
+
+theorem startFrom_pc {g : Graph} {w : Nat} {s1 s' : State} (h : StartFrom g w s1 s') (hw : w < s1.workers.length) :
+    ∃ n ph dir uid tag, (s'.wd w).pc = .test n ph dir uid tag 0 := by
+  cases h with
+  | plain n dir s0 evs gv hgv hn hroot hdec e =>
+    rw [e, startTest_pc g s1 n w .plain dir hw]; exact ⟨_, _, _, _, _, rfl⟩
+  | pre n dir hn hroot e =>
+    rw [e, startTest_pc g _ n w .pre dir (by simp [State.setWd]; exact hw)]; exact ⟨_, _, _, _, _, rfl⟩
+
+theorem appendPre_workers (s : State) (n w : Nat) (ph : Phase) :
+    (if ph = .pre then appendPre s n w else s).workers.length = s.workers.length := by
+  split <;> rfl
+
+theorem contEff_pc {g : Graph} {w n : Nat} {ph : Phase} {dir : Dir} {sc s' : State} {ok : Bool}
+    (h : ContEff g w n ph dir sc ok s') (hw : w < sc.workers.length) :
+    (s'.wd w).pc.isTest = false ∨ ∃ n' ph' dir' uid' tag', (s'.wd w).pc = .test n' ph' dir' uid' tag' 0 := by
+  rcases h with ⟨_, _, e⟩ | ⟨_, ⟨_, hp⟩ | ⟨s1, a, hs⟩⟩
+  · right; rw [e, startTest_pc g sc n w .main dir hw]; exact ⟨_, _, _, _, _, rfl⟩
+  · exact Or.inl hp
+  · right; exact startFrom_pc hs (by rw [a.workersLen, appendPre_workers]; exact hw)
+
+theorem wait_of_pc {pc : Pc} (h : pc.isTest = false ∨ ∃ n' ph' dir' uid' tag', pc = .test n' ph' dir' uid' tag' 0)
+    {n : Nat} {ph : Phase} {dir : Dir} {uid : String} {tag wait : Nat} (e : pc = .test n ph dir uid tag wait) : wait ≤ 10 := by
+  subst e
+  rcases h with h | ⟨_, _, _, _, _, h⟩
+  · cases h
+  · cases h; exact Nat.zero_le _
+
+/-- the wait counter of the program counter after a step is at most 10 -/
+theorem resume_wait (g : Graph) (hwf : GraphWF g) (s : State) (w : Nat) (out : Outcome) (fuel : Nat) (hf : 0 < fuel)
+    (hw : w < s.workers.length) (hpath : ∀ x ∈ (s.wd w).path, x < g.nodes.length)
+    (h : ∀ n ph dir uid tag wait, (s.wd w).pc = .test n ph dir uid tag wait → wait ≤ 10) :
+    ∀ n ph dir uid tag wait, ((resume g s w out fuel).1.wd w).pc = .test n ph dir uid tag wait → wait ≤ 10 := by
+  have loopCase : ∀ n ph dir uid tag wait, ((runLoop g w fuel s []).1.wd w).pc = .test n ph dir uid tag wait → wait ≤ 10 := by
+    intro n ph dir uid tag wait e
+    rcases runLoop_eff_pos g hwf w fuel hf s [] hw hpath with ⟨_, hp⟩ | ⟨s1, a, hs⟩
+    · exact wait_of_pc (Or.inl hp) e
+    · exact wait_of_pc (Or.inr (startFrom_pc hs (by rw [a.workersLen]; exact hw))) e
+  unfold resume
+  split
+  · exact loopCase
+  · exact loopCase
+  · next n0 ph0 dir0 uid0 tag0 wait0 heq =>
+    rw [resumeTest_eq]
+    obtain ⟨r1, r2, _⟩ := reportOutcome_frame g s w n0 ph0 uid0 wait0 out
+    have hwA : w < (reportOutcome g s w n0 ph0 uid0 wait0 out).1.workers.length := by rw [r2]; exact hw
+    have hpA : ∀ x ∈ ((reportOutcome g s w n0 ph0 uid0 wait0 out).1.wd w).path, x < g.nodes.length := by
+      unfold State.wd; rw [r2]; exact hpath
+    generalize (reportOutcome g s w n0 ph0 uid0 wait0 out).1 = sa at hwA hpA
+    have tick : ∀ k, k ≤ 10 → ∀ n ph dir uid tag wait,
+        ((sa.setWd w (fun d => { d with pc := .test n0 ph0 dir0 uid0 tag0 k })).wd w).pc = .test n ph dir uid tag wait → wait ≤ 10 := by
+      intro k hk n ph dir uid tag wait e
+      rw [wd_setWd_eq sa w _ hwA] at e
+      cases e; exact hk
+    split
+    · next st0 dur _ =>
+      have bB := recordResult_frame sa w n0 ph0 (if (ph0 == Phase.pre) = true then (s.wd w).preName else (g.node n0).name) uid0 tag0 st0 dur
+      intro n ph dir uid tag wait e
+      exact wait_of_pc (contEff_pc (continueAfter_eff g hwf w n0 ph0 dir0 fuel hf _ _ _ (by rw [bB.workersLen]; exact hwA)
+        (by rw [(bB.wd w).1]; exact hpA)) (by rw [bB.workersLen]; exact hwA)) e
+    · split
+      · next hlt => exact tick _ (by omega)
+      · split
+        · next _ heq10 => exact tick _ (by simp at heq10; omega)
+        · intro n ph dir uid tag wait e
+          exact wait_of_pc (contEff_pc (continueAfter_eff g hwf w n0 ph0 dir0 fuel hf _ _ _ hwA hpA) hwA) e
+  · exact h
+  · exact h
+
+/-! ## counting the steps
+
+`cnt = 23 · (number of results, placeholders included) + pcTerm`: a tick of the result wait raises `pcTerm` by one
+(`wait ≤ 10`), the end of an execution followed by the start of the next test appends a placeholder. -/
+
+/-- number of results of all nodes, UNKNOWN placeholders included -/
+def total (g : Graph) (s : State) : Nat := ((List.range g.nodes.length).map (fun n => (s.nd n).results.length)).sum
+
+theorem total_congr {g : Graph} {s s' : State} (h : ∀ m, (s'.nd m).results = (s.nd m).results) : total g s' = total g s :=
+  sum_map_congr _ _ _ (fun j _ => by rw [h j])
+
+theorem total_succ {g : Graph} {s s' : State} {n : Nat} (hn : n < g.nodes.length)
+    (h1 : (s'.nd n).results.length = (s.nd n).results.length + 1)
+    (h2 : ∀ j, j ≠ n → (s'.nd j).results.length = (s.nd j).results.length) : total g s' = total g s + 1 :=
+  sum_map_succ _ List.nodup_range n (List.mem_range.mpr hn) _ _ h1 (fun j _ hj => h2 j hj)
+
+/-- no node is an object root (no two-step creations) -/
+def noRootsB (g : Graph) : Bool := g.nodes.all (fun nd => !nd.objectRoot)
+
+theorem noRoots_spec {g : Graph} (h : noRootsB g = true) (n : Nat) : (g.node n).objectRoot = false := by
+  rcases node_mem_or_default g n with hm | hm
+  · unfold noRootsB at h
+    rw [List.all_eq_true] at h
+    simpa using h _ hm
+  · rw [hm]
+
+def pcTerm : Pc → Nat
+  | .test _ .pre _ _ _ wait => 12 + wait
+  | .test _ _ _ _ _ wait => 1 + wait
+  | _ => 0
+
+/-- the step counter -/
+def cnt (g : Graph) (s : State) : Nat := 23 * total g s + pcTerm (s.wd 0).pc
+
+/-- the traversal of the worker is over -/
+def isOver : Pc → Bool
+  | .done => true
+  | .failed => true
+  | _ => false
+
+theorem pcTerm_nonTest {pc : Pc} (h : pc.isTest = false) : pcTerm pc = 0 := by
+  cases pc <;> first | rfl | cases h
+
+theorem isTest_of_final {pc : Pc} (h1 : pcFinal pc = true) (h2 : isOver pc = false) : pc.isTest = true := by
+  cases pc <;> first | rfl | (cases h1; done) | cases h2
+
+theorem startFrom_total {g : Graph} (hnr : ∀ n, (g.node n).objectRoot = false) {w : Nat} {s1 s' : State}
+    (h : StartFrom g w s1 s') (hlen : s1.nodes.length = g.nodes.length) : total g s' = total g s1 + 1 := by
+  cases h with
+  | plain n dir s0 evs gv hgv hn hroot hdec e =>
+    obtain ⟨a1, a2⟩ := startTest_nonpre_len g s1 n w .plain dir (by decide) (by rw [hlen]; exact hn)
+    rw [e]
+    exact total_succ hn a1 a2
+  | pre n dir hn hroot e => rw [hnr n] at hroot; cases hroot
+
+theorem contEff_total {g : Graph} (hnr : ∀ n, (g.node n).objectRoot = false) {w n : Nat} {dir : Dir} {sc s' : State}
+    {ok : Bool} (h : ContEff g w n .plain dir sc ok s') (hT : (s'.wd w).pc.isTest = true)
+    (hlen : sc.nodes.length = g.nodes.length) : total g s' = total g sc + 1 := by
+  rcases h with ⟨h, _⟩ | ⟨_, ⟨_, hp⟩ | ⟨s1, a, hs⟩⟩
+  · cases h
+  · rw [hT] at hp; cases hp
+  · simp only [reduceCtorEq, if_false] at a
+    rw [startFrom_total hnr hs (by rw [a.nodesLen]; exact hlen)]
+    rw [total_congr a.results]
+
+theorem total_settle {g : Graph} {s : State} {w n : Nat} {ph : Phase} {dir : Dir} {uid : String} {tag wait : Nat}
+    (b : Basic g s All) (hpc : (s.wd w).pc = .test n ph dir uid tag wait) (hph : ph ≠ .pre)
+    (hroot : (g.node n).objectRoot = false) (res : Result) (hres : res.tag = 0) :
+    total g (settleNd s n res tag) = total g s := by
+  refine sum_map_congr _ _ _ (fun j _ => ?_)
+  rcases settleNd_results s n res tag j with h | ⟨hj, h⟩
+  · rw [h]
+  · subst hj
+    rw [h]
+    have ht := (b.pcOK w j ph dir uid tag wait trivial hpc).2.1
+    have hl := settle_len (s.nd j).results res tag (isPh_res_false res tag hres ht)
+    have h1 := b.tagsOnce j tag hroot ht
+    have h2 : 0 < ((s.nd j).results.filter (isPh tag)).length := by
+      apply List.length_pos_of_mem (a := phOf (g.node j).name tag)
+      refine List.mem_filter.mpr ⟨(b.placeholder w j ph dir uid tag wait trivial hpc).1 hph, ?_⟩
+      rw [isPh_phOf]; simp
+    omega
+
+/-- **every step that does not end the traversal raises the counter** (graphs without object roots) -/
+theorem resume_cnt (g : Graph) (hwf : GraphWF g) (hnr : ∀ n, (g.node n).objectRoot = false) (s : State) (b : Basic g s All)
+    (out : Outcome) (fuel : Nat) (hf : 0 < fuel) (hw0 : 0 < g.workers.length)
+    (hwait : ∀ n ph dir uid tag wait, (s.wd 0).pc = .test n ph dir uid tag wait → wait ≤ 10)
+    (hT : ((resume g s 0 out fuel).1.wd 0).pc.isTest = true) : cnt g s < cnt g (resume g s 0 out fuel).1 := by
+  have hws : 0 < s.workers.length := by rw [b.workersLen]; exact hw0
+  unfold cnt
+  rcases resume_eff g hwf s 0 out fuel hf hws (b.paths 0) with ⟨hnt, h⟩ | ⟨n, ph, dir, uid, tag, wait, hpc, sa, hrep, h⟩
+  · rw [pcTerm_nonTest hnt]
+    rcases h with ⟨_, hp⟩ | ⟨s1, a, hs⟩
+    · rw [hT] at hp; cases hp
+    · rw [startFrom_total hnr hs (by rw [a.nodesLen]; exact b.nodesLen), total_congr a.results]
+      omega
+  · have hok := b.pcOK 0 n ph dir uid tag wait trivial hpc
+    have hph : ph = .plain := hok.2.2.2.1.mp (hnr n)
+    subst hph
+    have hw10 := hwait n .plain dir uid tag wait hpc
+    have hterm : pcTerm (s.wd 0).pc = 1 + wait := by rw [hpc]; rfl
+    rw [hterm]
+    have hsb : SameBook s sa := by
+      rcases hrep with ⟨h, _⟩ | ⟨_, _, _, h, _⟩
+      · rw [h]; exact ⟨rfl, rfl, rfl⟩
+      · exact h
+    have ba : Basic g sa All := b.sameBook hsb
+    have hpca : (sa.wd 0).pc = .test n .plain dir uid tag wait := by rw [hsb.wd]; exact hpc
+    have hta : total g sa = total g s := total_congr (fun m => by rw [hsb.nd])
+    rcases h with ⟨e, _, sb, res, ok, hsab, _, ⟨hres, _⟩, hc⟩ | ⟨_, h | hc⟩
+    · have bb : Basic g sb All := ba.sameBook hsab
+      have hpcb : (sb.wd 0).pc = .test n .plain dir uid tag wait := by rw [hsab.wd]; exact hpca
+      have htb : total g sb = total g sa := total_congr (fun m => by rw [hsab.nd])
+      simp only [reduceCtorEq, if_false] at hc
+      have h1 := contEff_total hnr hc hT (by unfold settleNd; rw [nodes_length_setNd]; exact bb.nodesLen)
+      rw [total_settle bb hpcb (by decide) (hnr n) res hres] at h1
+      omega
+    · rw [h, wd_setWd_eq sa 0 _ (by rw [ba.workersLen]; exact hw0)]
+      have : total g (sa.setWd 0 (fun d => { d with pc := .test n .plain dir uid tag (wait + 1) })) = total g sa :=
+        total_congr (fun m => rfl)
+      rw [this, hta]
+      show 23 * total g s + (1 + wait) < 23 * total g s + (1 + (wait + 1))
+      omega
+    · have h1 := contEff_total hnr hc hT ba.nodesLen
+      omega
+
 end I2N.Trav.Global
